@@ -4,6 +4,12 @@ import json
 import os
 
 SEEDS = {
+    "c01-1": ("C01", "and()/or() with three or more arguments on a line where the first two hold and a later one does not (only the first two vote)", ["C01"]),
+    "c04-1": ("C04", "fail_and_stop(cond)/stop(cond) whose condition function returns None because a nested argument errored under a non-raising policy", ["C04"]),
+    "c08-1": ("C08", "breadth-first run + file ending in a blank line + a member with last() side effects (the final blank line is no longer evaluated)", ["C08"]),
+    "c17-1": ("C17", "an outer comment (before or after the csvpath) containing a '$'", ["C17"]),
+    "c18-1": ("C18", "a serial run that aborts followed, on the same CsvPaths instance, by a breadth-first run (stale run directory reused)", ["C18"]),
+    "c20-1": ("C20", "a results reference used as the file name together with a source-mode: preceding member (reads the replayed file again)", ["C20"]),
     "c02-1": ("C02", "lone reversed range whose low bound is 0 ([3-0]) with record 0 non-blank and a later non-blank record in range", ["C02"]),
     "c03-1": ("C03", "first() on a value first seen on line 0 that re-appears later; scan must include line 0", ["C03"]),
     "c05-1": ("C05", "validation-mode whose FIRST token is no-stop, a non-raising error, and at least one more line after it", ["C05"]),
